@@ -629,7 +629,7 @@ def r_element_preserve(cx):
 SET_WIDE = ("stomp",)
 
 
-@rule("R-TUPLE-LOOP-COMPLETE", ["C02", "C10"])
+@rule("R-TUPLE-LOOP-COMPLETE", ["C02", "C10", "C06", "C14"])
 def r_tuple_loop_complete(cx):
     """The only way out of a per-tuple loop is the exhaustion of its iterator: a `break` or `return` in the body leaves
     the tuples after the current one untransformed, uncounted and looking valid (their fate then depends on a
@@ -664,3 +664,38 @@ def r_tuple_loop_complete(cx):
                "the per-tuple loop of %s overwrites the whole set (stomp) from inside the body: tuples already "
                "transformed are wiped because of a neighbour" % f.name), where)
     cx.count("R-TUPLE-LOOP-COMPLETE", "loops", n)
+
+
+# ---------------------------------------------------------------------------------------------------------------------
+# R-NAN-TRANSPARENT (C10): no NaN-swallowing operation on the data path of a per-tuple loop
+
+NAN_SWALLOWERS = ("min", "max", "fmin", "fmax", "minimum_number", "maximum_number")
+
+
+@rule("R-NAN-TRANSPARENT", ["C10"])
+def r_nan_transparent(cx):
+    """`a NaN input element produces NaN in every output element that depends on it`. Arithmetic and the elementary
+    functions propagate NaN; f64::min and f64::max do not (they return the other operand). Inside the per-tuple loops
+    of the operators no f64::min / f64::max is applied (f64::clamp, which propagates NaN, is the idiom for a roundoff
+    guard)."""
+    pts = pertuple.all_per_tuple_loops(cx)
+    n = 0
+    bad = 0
+    for pt in pts:
+        f = pt.f
+        n += 1
+        k = 0
+        for bb, t in f.calls():
+            if bb not in pt.lp.body:
+                continue
+            c = f.callee(t) or ""
+            if "f64" in c and c.rsplit("::", 1)[-1] in NAN_SWALLOWERS:
+                bad += 1
+                cx.ob("R-NAN-TRANSPARENT", "%s/loop@%s/call%d" % (f.name, _loop_id(pt), k), False,
+                      "%s applies %s inside its per-tuple loop: for a NaN operand it returns the other operand, so a NaN "
+                      "coordinate is turned into a finite, valid looking result" % (f.name, c.rsplit("::", 2)[-1]),
+                      cx.where(t["span"]))
+                k += 1
+    cx.ob("R-NAN-TRANSPARENT", "summary", True,
+          "%d per-tuple loops contain no NaN-swallowing f64::min / f64::max" % n, nontrivial=n > 0)
+    cx.count("R-NAN-TRANSPARENT", "loops", n)
